@@ -13,8 +13,9 @@ repeated node.
 
 Hypotheses, all explicit:
 * `m.WF` – the invariant `Mesh::from_raw_parts` asserts (one reference per
-  element).  The MEDIT ASCII reader does not establish it when element lines
-  lack the reference column: `centres_differ_without_refs`.
+  element).  Before /repo f77a0cf the MEDIT ASCII reader did not establish it
+  when element lines lacked the reference column; `centres_differ_without_refs`
+  records what `dual` does on such a mesh.
 * `1 ≤ d` for the adjacency characterisation: candidates come from the
   node → elements index, so two cells are only compared if they share a node.
   For a vertices-only mesh (`d = 0`) the definition would join every pair:
@@ -179,8 +180,9 @@ theorem dual_asymmetric_degenerate :
     m.WF ∧ topDim m = some 2 ∧ run m = .ok ⟨2, [0, 1, 1], [1], 1⟩ := by decide +kernel
 
 /-- Outside `Mesh.WF` (MEDIT element lines without a reference column, which
-the ASCII reader accepts): `Mesh::elements` stops at the last reference, so the
-centres and the graph vertices differ and the adjacency is lost. -/
+the ASCII reader stored as they were before /repo f77a0cf): `Mesh::elements`
+stops at the last reference, so the centres and the graph vertices differ and
+the adjacency is lost. -/
 theorem centres_differ_without_refs :
     let m : Mesh := ⟨4, [⟨.triangle, [0, 1, 2, 1, 2, 3], 0⟩]⟩
     ¬ m.WF ∧ run m = .ok ⟨2, [0, 0, 0], [], 0⟩ ∧ barycentres m = some 0 ∧
